@@ -24,7 +24,7 @@ FUNCTIONS = [
     "lasio/las_items.py::SectionItems.insert",
 ]
 PROBES = ["contains", "getitem", "getattr", "delete", "get", "get_add", "assign", "int_get", "int_del", "slice"]
-ALPHABET = "Aa:1 "
+ALPHABET = "Aa:1 _"
 BOUNDS = {
     "quick": {"build_len": [1, 2], "name_cap": 2, "key_cap": 3, "alphabet": ALPHABET, "probes": PROBES, "task_budget_s": 600,
               "extra_tasks": [[3, "getitem"], [3, "delete"]]},
